@@ -44,6 +44,7 @@ def framework(at, lim):
     M = {a: {b: None for b in names} for a in names}
     M["ca"]["cb"] = "r"
     M["cb"]["cd"] = "m"
+    M["cb"]["ca"] = "km"
     sheet("Transitions", [["Transition Matrix"] + names] + [[a] + [M[a][b] for b in names] for a in names])
     sheet("Characteristics", [["Code Name", "Display Name", "Components", "Denominator", "Default Value", "Setup Weight", "Databook Page"], ["alive", "Ch alive", "ca, cb", None, 0, 0, None]])
     lo = None if lim[0] == NONE else float(fr(lim[0]))
@@ -55,6 +56,7 @@ def framework(at, lim):
             ["h", "P h", None, None, None, None, None, "f1 + f2", None, "n"],
             ["r", "P r", "probability", 1, None, 0, 0.4, "min(f2, 5)/10", None, "n"],
             ["m", "P m", "rate", 1, 0.3, 0, 1.5, None, "pa", "y"],
+            ["km", "P km", "probability", 1, None, 0, 1, "m/2", None, "n"],
             ["g", "P g", None, None, None, 0.1, None, "ca / max(alive, 1) * f1", None, "n"]]
     sheet("Parameters", rows)
     wb.close()
@@ -237,7 +239,7 @@ def run(prop, tier):
         if isinstance(vals_, dict):
             vals_ = [vals_[str(k)] for k in range(len(vals_))]
         for k, want in enumerate(vals_):
-            for name in ("base", "f1", "f2", "h", "r", "m"):
+            for name in ("base", "f1", "f2", "h", "r", "m", "km"):
                 o = float(mp.get_par(name).vals[k])
                 if not np.isfinite(o):
                     sc_on = c0["case"]["scen"][0]
@@ -299,6 +301,43 @@ def run(prop, tier):
                     res = P.run_sim(ps2, store_results=False)
                     T = len(res.model.t)
                     rid = relations(at, res, ps2, dict(model=name, variant="scenario on function parameter %s in %s from %s" % (par, pop, Y)), records, index, rid, V, range(0, T - 1))
+    # ---- a databook row entered once for all populations ("All"): every population has its own series in the parameter set, so a
+    # scenario (or a direct edit) for one population leaves the others with the databook series
+    import sciris as sc
+
+    for name in (["hiv"] if not thorough else ["hiv", "hypertension", "tb"]):
+        P = at.demo(name, do_run=False)
+        s0, dt = float(P.settings.sim_start), float(P.settings.sim_dt)
+        P.settings.update_time_vector(end=s0 + 5)
+        data = sc.dcp(P.data)
+        pops = list(data.pops.keys())
+        shared = [p for p in P.framework.pars.index if p in data.tdve and not isinstance(P.framework.pars.at[p, "function"], str) and P.framework.transitions.get(p)
+                  and all(data.tdve[p].ts[q].has_data for q in pops if q in data.tdve[p].ts) and pops[0] in data.tdve[p].ts][:2]
+        for par in shared:
+            row = data.tdve[par].ts[pops[0]].copy()
+            data.tdve[par].ts = sc.odict([("All", row)])
+        ps = at.ParameterSet(P.framework, data, "all-row")
+        base = P.run_sim(ps, store_results=False)
+        for par in shared:
+            for how in ("scenario", "direct edit"):
+                ps2 = sc.dcp(ps)
+                cur = float(base.model.get_pop(pops[0]).get_par(par).vals[2])
+                if how == "scenario":
+                    scen = at.ParameterScenario(name="s", interpolation="previous")
+                    scen.add(par, pops[0], [s0 + 2], [cur * 1.5 + 0.01])
+                    ps2 = scen.get_parset(ps2, P)
+                else:
+                    ps2.pars[par].ts[pops[0]].insert(s0 + 2, cur * 1.5 + 0.01)
+                    ps2.pars[par].ts[pops[0]].insert(s0 + 4, cur * 2.5 + 0.01)
+                res = P.run_sim(ps2, store_results=False)
+                for pop in pops[1:]:
+                    for ti in range(0, len(res.model.t) - 1):
+                        v = float(res.model.get_pop(pop).get_par(par).vals[ti])
+                        b = float(base.model.get_pop(pop).get_par(par).vals[ti])
+                        records.append(dict(id=rid, kind="data", val=FX.fix(v), want=FX.fix(b), lo=FX.fix(0.0), hi=FX.fix(0.0), haslo=False, hashi=False))
+                        index[rid] = dict(label=dict(model=name, variant="'All' databook row, %s for %s only" % (how, pops[0])), par=par, pop=pop, ti=ti, val=v, want=b)
+                        rid += 1
+        cov.setdefault("all_row_parameters", []).append(dict(model=name, pars=shared))
     bad, states = C.validate_batch(["Rat", "Big", "ParamPipelineTrace"], "ParamPipelineTrace", records, ndjson=True, timeout=3000)
     cov["states"] += states
     cov["transitions"] += states
